@@ -6,7 +6,7 @@
    (2) The repaired model still depends on the insertion order inside a collision
    bucket: history independence fails without the collision_free hypothesis. *)
 From Coq Require Import List ZArith Bool.
-From GZ Require Import C15.Model C15.Cluster.
+From GZ Require Import C15.Model C15.Cluster C15.Conc.
 Import ListNotations.
 Open Scope Z_scope.
 
@@ -199,3 +199,65 @@ Proof.
   vm_compute. repeat split; try reflexivity; try discriminate.
   intros [H|[H|[]]]; discriminate.
 Qed.
+
+(* (5) seeded change C15-5 — h.nodes records with how many virtual nodes a member was added, and
+   Remove walks only i < that count instead of i < h.replicas.  Sequentially equivalent; but between
+   the two critical sections of AddWithReplicas other calls run: when two weight updates of one node
+   race (both past their Remove, the larger insertion first, the smaller last) the ring holds both
+   layers and the recorded count is the smaller one — Remove then leaves the surplus of the larger
+   layer in the ring and forgets the node. *)
+Section Pinned5.
+Variable vh : Z -> Z -> Z.
+Variable R : Z.
+
+Record pstate := mkP { pst : state; pcnt : list (Z * Z) }.   (* repr |-> recorded count *)
+
+Fixpoint pcount (n : Z) (l : list (Z * Z)) : option Z :=
+  match l with
+  | [] => None
+  | (k, c) :: l' => if k =? n then Some c else pcount n l'
+  end.
+
+Definition p5_remove (n : Z) (p : pstate) : pstate :=
+  match pcount n (pcnt p) with
+  | None => p
+  | Some c =>
+    let s' := fold_left (remove_vnode vh n) (indices c) (pst p) in
+    mkP (mkState (keys s') (ring s') (del n (nodes s')))
+        (filter (fun kc => negb (fst kc =? n)) (pcnt p))
+  end.
+
+Definition p5_insert (x : node) (r : Z) (p : pstate) : pstate :=
+  let r' := if R <? r then R else r in
+  mkP (ring_insert vh R x r (pst p))
+      ((nrepr x, r') :: filter (fun kc => negb (fst kc =? nrepr x)) (pcnt p)).
+
+Definition p5_step (p : pstate) (a : act) : pstate :=
+  match a with ARemove n => p5_remove n p | AInsert x r => p5_insert x r p end.
+
+Definition p5_run (acts : list act) : pstate := fold_left p5_step acts (mkP init []).
+End Pinned5.
+
+(* updater A (50 replicas) and updater B (100) of node 1 both ran their Remove; B inserts, then A;
+   then the node is removed *)
+Definition race_acts : list act :=
+  [ARemove 1; ARemove 1; AInsert (mkNode 1 0) 100; AInsert (mkNode 1 0) 50; ARemove 1].
+
+Theorem recorded_count_remove_refuted :
+  exists vh R pre n post hp ihp y,
+    forallb (fun a => match a with AInsert x _ => negb (nrepr x =? n) | ARemove _ => true end) post = true /\
+    nrepr y = n /\
+    get (pst (p5_run vh R (pre ++ ARemove n :: post))) hp ihp = GSome y.
+Proof.
+  exists (fun n i => n * 1000 + i), 100,
+         [ARemove 1; ARemove 1; AInsert (mkNode 1 0) 100; AInsert (mkNode 1 0) 50], 1, [], 1075, 0, (mkNode 1 0).
+  vm_compute. auto.
+Qed.
+
+(* the code as it is, on the same actions: the mixed state holds 150 entries of node 1, Remove takes
+   all of them out *)
+Example race_as_is :
+  length (keys (arun (fun n i => n * 1000 + i) 100 [ARemove 1; ARemove 1; AInsert (mkNode 1 0) 100; AInsert (mkNode 1 0) 50])) = 150%nat /\
+  get (arun (fun n i => n * 1000 + i) 100 race_acts) 1075 0 = GNone /\
+  ring (arun (fun n i => n * 1000 + i) 100 race_acts) = [].
+Proof. vm_compute. auto. Qed.
